@@ -251,6 +251,13 @@ class XPathContext:
                 if doc is not None and any(node is x for x in doc.iter_lazy()):
                     return doc
 
+        if isinstance(node, XPathNode):
+            # A node of the context tree outside the subtree of the context root, or any
+            # node when the context has no root: the root of its own tree.
+            root_node = node.root_node
+            if self.root is None or root_node is self.root.root_node:
+                if isinstance(root_node, (DocumentNode, ElementNode)):
+                    return root_node
         return None
 
     def is_document(self) -> bool:
